@@ -4,11 +4,23 @@
 # iff every one of the 55 pinned tests passes.
 set -u
 BUILD=${1:-/repo/_build}
-if [ ! -f "$BUILD/build.ninja" ]; then
-  cmake -G Ninja -S /repo -B "$BUILD" >/dev/null 2>&1
+# the source tree is the directory that contains the build directory (/repo, or
+# a scratch worktree when a seeded change is evaluated)
+SRC=${2:-$(dirname "$BUILD")}
+if [ ! -f "$BUILD/build.ninja" ] || ! grep -q "^CMAKE_HOME_DIRECTORY:INTERNAL=$SRC\$" "$BUILD/CMakeCache.txt"; then
+  rm -rf "$BUILD"
+  cmake -G Ninja -S "$SRC" -B "$BUILD" >/dev/null 2>&1
+fi
+# in a git worktree .git is a file: point the HEAD dependency of CompilerInfo.cpp
+# at the real HEAD file of the worktree
+if [ -f "$SRC/.git" ]; then
+  GITDIR=$(git -C "$SRC" rev-parse --absolute-git-dir)
+  sed -i "s#$SRC/.git/HEAD#$GITDIR/HEAD#g" "$BUILD/build.ninja"
 fi
 # -k 0: targets that cannot be built in this sandbox must not stop the others
 ninja -C "$BUILD" -k 0 >"$BUILD/verif_ninja.log" 2>&1 || true
+# the unit tests are EXCLUDE_FROM_ALL: they are only (re)built by the buildTests target
+ninja -C "$BUILD" -k 0 buildTests >"$BUILD/verif_ninja_tests.log" 2>&1 || true
 cd "$BUILD" && ctest -j8 --timeout 900 >"$BUILD/verif_ctest.log" 2>&1
 python3 - "$BUILD/verif_ctest.log" <<'PY'
 import json, re, sys
